@@ -1184,8 +1184,12 @@ pub(crate) fn rename_sheet_in_node(node: &mut Node, sheet_index: u32, new_name: 
             }
         }
         Node::WrongRangeKind { sheet_name, .. } => {
-            if sheet_name.is_some() {
-                *sheet_name = Some(new_name.to_owned());
+            // a range into a sheet that does not exist keeps its sheet name, like a single
+            // reference does: renaming an unrelated sheet must not point it somewhere else
+            if let Some(name) = sheet_name {
+                if name.to_uppercase() == new_name.to_uppercase() {
+                    *sheet_name = Some(name.to_owned())
+                }
             }
         }
 
